@@ -557,6 +557,11 @@ class Gen:
                     edits.append((a, q, hoist[k], 'R2'))
                     continue
                 edits.append((a, b, rep, 'R2'))
+                # R2 + R1c: the source closure takes a tuple pattern, the contract header names a single parameter:
+                # bind the pattern from that parameter at the start of the body
+                tup = re.match(r'^\|\s*(\([^()|]*\))\s*\|$', bmask[a:b])
+                hdr_param = re.match(r'\s*(?:move\s+)?\|\s*(\w+)\s*:', rep)
+                bind_tuple = ' let %s = %s; ' % (btxt[a:b].strip()[1:-1].strip(), hdr_param.group(1)) if (tup and hdr_param) else ''
                 if re.search(r'\b(ensures|requires)\b|->', rep):
                     # a closure with a contract needs a block body: brace the body expression
                     e = b
@@ -570,8 +575,11 @@ class Gen:
                             elif bmask[q] in ',)]};':
                                 break
                             q += 1
-                        edits.append((e, e, '{ ', 'R2'))
+                        edits.append((e, e, '{ ' + bind_tuple, 'R2'))
                         edits.append((q, q, ' }', 'R2'))
+                        bind_tuple = ''
+                    if bind_tuple:
+                        edits.append((e + 1, e + 1, bind_tuple, 'R2'))
         # R3 loops
         if loops:
             lp = find_loops(bmask, 0, len(bmask))
